@@ -85,7 +85,7 @@ func (t *c22Tables) jnum(f float64) string {
 	}
 	if !applies {
 		key := fmt.Sprintf("(%s, %s)", c22BigZ(m), coqZ(int64(e)))
-		t.gfmt[key] = fmt.Sprintf("%g", f)
+		t.gfmt[key] = keyFloatText(f)
 		t.nfmt[key] = strconv.FormatFloat(f, 'f', -1, 64)
 	}
 	return "(JNum " + c22BigZ(m) + " " + coqZ(int64(e)) + ")"
